@@ -16,6 +16,7 @@ import (
 	"encoding/json"
 	"fmt"
 	"math/rand"
+	"os"
 	"regexp"
 	"sort"
 	"strconv"
@@ -23,7 +24,6 @@ import (
 	"sync"
 	"time"
 
-	"github.com/llir/llvm/asm"
 	"github.com/llir/llvm/ir"
 	"github.com/llir/llvm/ir/metadata"
 
@@ -47,12 +47,19 @@ type irVector struct {
 	Shape int     `json:"shape"`
 	Refs  [][]int `json:"refs"`
 	Want  irWant  `json:"want"`
+	// history vectors (MetadataHist.tla): insert position, operands and outcome of the second print
+	Ins   *int    `json:"ins,omitempty"`
+	Refs2 [][]int `json:"refs2,omitempty"`
+	Want2 *irWant `json:"want2,omitempty"`
 }
 
 type irRow struct {
-	IDs  []int64 `json:"ids"`
-	Refs [][]int `json:"refs"`
-	Got  irWant  `json:"got"`
+	IDs   []int64 `json:"ids"`
+	Refs  [][]int `json:"refs"`
+	Got   irWant  `json:"got"`
+	Ins   *int    `json:"ins,omitempty"`
+	Refs2 [][]int `json:"refs2,omitempty"`
+	Got2  *irWant `json:"got2,omitempty"`
 }
 
 var reDefLine = regexp.MustCompile(`(?m)^!(\d+) = (distinct )?(.*)$`)
@@ -114,36 +121,44 @@ func buildIR(ids []int64, refs [][]int) (*ir.Module, []metadata.Definition) {
 	return m, ts
 }
 
-// runIR prints the vector's module with the real code and records the outcome.
-func runIR(v irVector) (row irRow, text string, extra string) {
-	row = irRow{IDs: v.IDs, Refs: v.Refs, Got: irWant{IDs: []int64{}, Tokens: [][]int64{}}}
-	if row.Refs == nil {
-		row.Refs = [][]int{}
-	}
-	for i := range row.Refs {
-		if row.Refs[i] == nil {
-			row.Refs[i] = []int{}
+// evalIR runs the vectors in child processes and returns the recorded rows, the printed
+// texts and, per vector, a description of anything wrong that the laws do not cover.
+func evalIR(vectors []irVector) (rows []irRow, texts []string, extras []string, crashed []*jobResult) {
+	jobs := make([]job, len(vectors))
+	for i, v := range vectors {
+		jobs[i] = job{Kind: "ir", IDs: v.IDs, Refs: v.Refs, Ins: -1}
+		if v.Ins != nil {
+			jobs[i].Ins = *v.Ins
 		}
 	}
-	m, ts := buildIR(v.IDs, row.Refs)
-	_, panicked := mbt.Guard(func() { text = m.String() })
-	if panicked {
-		return row, "", ""
-	}
-	row.Got.OK = true
-	ids, toks, _ := defTokens(text)
-	row.Got.IDs, row.Got.Tokens = ids, toks
-	// the IDs stored on the nodes are the IDs printed, and printing again changes nothing
-	for i, t := range ts {
-		if i < len(ids) && t.ID() != ids[i] {
-			extra = fmt.Sprintf("definition %d carries ID %d after printing but was printed as !%d", i, t.ID(), ids[i])
+	res := runJobs(jobs)
+	rows = make([]irRow, len(vectors))
+	texts = make([]string, len(vectors))
+	extras = make([]string, len(vectors))
+	crashed = make([]*jobResult, len(vectors))
+	for i, v := range vectors {
+		r := res[i]
+		rows[i] = irRow{IDs: v.IDs, Refs: normRefs(v.Refs, len(v.IDs)), Got: r.Got}
+		texts[i] = r.Text
+		extras[i] = r.Extra
+		if v.Ins != nil {
+			rows[i].Ins = v.Ins
+			rows[i].Refs2 = normRefs(v.Refs2, len(v.IDs)+1)
+			g2 := r.Got2
+			rows[i].Got2 = &g2
+			if r.Extra == "" && r.Extra2 != "" {
+				extras[i] = "after inserting an unnumbered definition and printing again: " + r.Extra2
+			}
+			if r.Text2 != "" {
+				texts[i] = r.Text2
+			}
+		}
+		if r.Crashed != "" {
+			rr := r
+			crashed[i] = &rr
 		}
 	}
-	var again string
-	if _, p := mbt.Guard(func() { again = m.String() }); p || again != text {
-		extra = "printing a second time gives a different result (ID assignment is not idempotent)"
-	}
-	return row, text, extra
+	return
 }
 
 // --- parser side -------------------------------------------------------------------
@@ -219,10 +234,11 @@ type parseRow struct {
 	kind      map[int64]string
 }
 
-func renderOp(o op) string {
+// renderOp renders an operand; zr is the run of leading zeros references are spelled with.
+func renderOp(o op, zr string) string {
 	switch o["k"] {
 	case "ref":
-		return fmt.Sprintf("!%d", int64(o["id"].(float64)))
+		return fmt.Sprintf("!%s%d", zr, int64(o["id"].(float64)))
 	case "null":
 		return "null"
 	case "str":
@@ -231,7 +247,7 @@ func renderOp(o op) string {
 		var parts []string
 		if ops, ok := o["ops"].([]interface{}); ok {
 			for _, x := range ops {
-				parts = append(parts, renderOp(op(x.(map[string]interface{}))))
+				parts = append(parts, renderOp(op(x.(map[string]interface{})), zr))
 			}
 		}
 		return "!{" + strings.Join(parts, ", ") + "}"
@@ -239,17 +255,29 @@ func renderOp(o op) string {
 	return "?"
 }
 
-// render turns the abstract text of a pattern into LLVM assembly.
-func render(t patText) string {
-	var sb strings.Builder
-	fmt.Fprintf(&sb, "@g = global i32 0, !foo %s\n\n", renderOp(t.Sites.Global))
-	sb.WriteString("declare i1 @llvm.type.test(i8*, metadata)\n\n")
-	fmt.Fprintf(&sb, "define void @f() !bar %s {\n", renderOp(t.Sites.Func))
-	fmt.Fprintf(&sb, "  %%1 = add i32 1, 2, !foo %s\n", renderOp(t.Sites.Inst))
-	for i, a := range t.Sites.Args {
-		fmt.Fprintf(&sb, "  %%%d = call i1 @llvm.type.test(i8* null, metadata %s)\n", i+2, renderOp(a))
+// render turns the abstract text of a pattern into LLVM assembly. sp is the
+// spelling mode of MetadataGraph.tla: an ID is its decimal value however many
+// leading zeros it is written with (1: definitions !0N; 2: references !00N;
+// 3: definitions !00N, references !0N).
+func render(t patText, sp int) string {
+	zd, zr := "", ""
+	switch sp {
+	case 1:
+		zd = "0"
+	case 2:
+		zr = "00"
+	case 3:
+		zd, zr = "00", "0"
 	}
-	fmt.Fprintf(&sb, "  ret void, !foo %s\n}\n\n", renderOp(t.Sites.Term))
+	var sb strings.Builder
+	fmt.Fprintf(&sb, "@g = global i32 0, !foo %s\n\n", renderOp(t.Sites.Global, zr))
+	sb.WriteString("declare i1 @llvm.type.test(i8*, metadata)\n\n")
+	fmt.Fprintf(&sb, "define void @f() !bar %s {\n", renderOp(t.Sites.Func, zr))
+	fmt.Fprintf(&sb, "  %%1 = add i32 1, 2, !foo %s\n", renderOp(t.Sites.Inst, zr))
+	for i, a := range t.Sites.Args {
+		fmt.Fprintf(&sb, "  %%%d = call i1 @llvm.type.test(i8* null, metadata %s)\n", i+2, renderOp(a, zr))
+	}
+	fmt.Fprintf(&sb, "  ret void, !foo %s\n}\n\n", renderOp(t.Sites.Term, zr))
 	named := func(pos string) {
 		for _, n := range t.Named {
 			if n.Pos != pos {
@@ -257,7 +285,7 @@ func render(t patText) string {
 			}
 			var parts []string
 			for _, x := range n.Nodes {
-				parts = append(parts, renderOp(x))
+				parts = append(parts, renderOp(x, zr))
 			}
 			fmt.Fprintf(&sb, "!%s = !{%s}\n", n.Name, strings.Join(parts, ", "))
 		}
@@ -266,13 +294,13 @@ func render(t patText) string {
 	for _, d := range t.Defs {
 		var parts []string
 		for _, x := range d.Ops {
-			parts = append(parts, renderOp(x))
+			parts = append(parts, renderOp(x, zr))
 		}
 		dist := ""
 		if d.Distinct {
 			dist = "distinct "
 		}
-		fmt.Fprintf(&sb, "!%d = %s!{%s}\n", d.ID, dist, strings.Join(parts, ", "))
+		fmt.Fprintf(&sb, "!%s%d = %s!{%s}\n", zd, d.ID, dist, strings.Join(parts, ", "))
 	}
 	named("post")
 	return sb.String()
@@ -280,6 +308,9 @@ func render(t patText) string {
 
 // Run is the C17 check.
 func Run(tier, replay string) {
+	if os.Getenv(childEnv) != "" {
+		childMain()
+	}
 	rep := mbt.NewReport("C17", tier, "model_checking")
 	rep.Rule = "definition lists (IDs in {-1,0..MaxId}, x graph shape) built through the ir API and printed; module texts (TLC-generated metadata graph patterns and the 28 specialised node kinds with subsets of fields) parsed, walked by reflection and printed; every record judged by MetadataTrace"
 	rep.Assumptions = []string{
@@ -293,6 +324,9 @@ func Run(tier, replay string) {
 		rep.Finish()
 	}
 
+	phases := map[string]float64{}
+	tPhase := time.Now()
+	lap := func(name string) { phases[name] = time.Since(tPhase).Seconds(); tPhase = time.Now() }
 	// (S) the laws hold for the ID assignment as written; the wrong variants are rejected
 	maxDefs, maxID := "4", "4"
 	if tier == "thorough" {
@@ -316,6 +350,24 @@ func Run(tier, replay string) {
 		}
 		tv.Cleanup()
 	}
+	// histories: print, insert an unnumbered definition in front / in the middle / at the end, print again
+	histDefs, histID := "3", "3"
+	if tier == "thorough" {
+		histDefs, histID = "4", "3"
+	}
+	th := mbt.MustTLC(mbt.TLCOpts{Spec: "MetadataHist", Cfg: "MetadataHist.cfg", Workers: 1, Timeout: 10 * time.Minute,
+		Consts: map[string]string{"Emit": "TRUE", "MaxDefs": histDefs, "MaxId": histID}})
+	if len(th.Violated) > 0 {
+		mbt.Infra("MetadataHist.tla violates %v: specification error", th.Violated)
+	}
+	rep.AddTLC(th)
+	hist, err := mbt.ReadNDJSON[irVector](th.Dir + "/md_hist.ndjson")
+	if err != nil || len(hist) == 0 {
+		mbt.Infra("no histories from MetadataHist.tla: %v", err)
+	}
+	th.Cleanup()
+	nPlain := len(vectors)
+	vectors = append(vectors, hist...)
 	maxN := "3"
 	if tier == "thorough" {
 		maxN = "4"
@@ -332,45 +384,64 @@ func Run(tier, replay string) {
 	}
 	tg.Cleanup()
 
-	// (G) IR side
-	irRows := make([]irRow, len(vectors))
-	irText := make([]string, len(vectors))
-	irExtra := make([]string, len(vectors))
-	llvmEvery := 1
+	lap("tlc_generators")
+	// (G) IR side: every vector is built and printed in a child process
+	irRows, irText, irExtra, irCrashed := evalIR(vectors)
+	lap("ir_children")
+	llvmEvery := 2
 	if tier != "thorough" {
 		llvmEvery = 5
 	}
 	off := rng.Intn(llvmEvery)
 	var mu sync.Mutex
-	llvmChecked, llvmRejected := 0, 0
+	llvmChecked := 0
 	llvmoracle.Parallel(len(vectors), func(i int) {
-		irRows[i], irText[i], irExtra[i] = runIR(vectors[i])
-		if irRows[i].Got.OK && vectors[i].Want.OK && (i+off)%llvmEvery == 0 {
+		want := vectors[i].Want.OK && (vectors[i].Want2 == nil || vectors[i].Want2.OK)
+		got := irRows[i].Got.OK && (irRows[i].Got2 == nil || irRows[i].Got2.OK)
+		if got && want && irExtra[i] == "" && irCrashed[i] == nil && (i+off)%llvmEvery == 0 {
 			ok, diag := llvmoracle.Accepts(irText[i])
 			mu.Lock()
 			llvmChecked++
 			if !ok {
-				llvmRejected++
 				irExtra[i] = "llvm-as rejects the printed module: " + mbt.Truncate(diag, 200)
 			}
 			mu.Unlock()
 		}
 	})
+	var keptRows []irRow
+	var keptVecs []irVector
 	for i, v := range vectors {
-		rep.Count(fmt.Sprintf("ir:%v/%d", v.IDs, v.Shape), len(v.IDs) >= 2)
-		if irExtra[i] != "" {
-			rep.Fail(mbt.Failure{Signature: "C17|ir|" + extraClass(irExtra[i]) + "|" + idsClass(v.IDs), What: fmt.Sprintf("ids %v shape %d: %s", v.IDs, v.Shape, irExtra[i]),
-				Case: map[string]interface{}{"kind": "ir", "ids": v.IDs, "refs": v.Refs, "shape": v.Shape}})
+		rep.Count(fmt.Sprintf("ir:%v/%d/%v", v.IDs, v.Shape, insOf(v)), len(v.IDs) >= 2)
+		caseOf := map[string]interface{}{"kind": "ir", "ids": v.IDs, "refs": v.Refs, "shape": v.Shape}
+		if v.Ins != nil {
+			caseOf["ins"], caseOf["refs2"] = *v.Ins, v.Refs2
 		}
+		if c := irCrashed[i]; c != nil {
+			if c.Phase != "skipped" {
+				rep.Fail(mbt.Failure{Signature: "C17|print|crash|ir|" + idsClass(v.IDs) + histTag(v), What: fmt.Sprintf("ids %v operands %v%s: the process dies while printing the module (%s): a definition that was left unnumbered is printed through its own operands without end", v.IDs, v.Refs, histWords(v), c.Crashed), Case: caseOf})
+			}
+			continue // nothing was recorded for this vector
+		}
+		if irExtra[i] != "" {
+			rep.Fail(mbt.Failure{Signature: "C17|ir|" + extraClass(irExtra[i]) + "|" + idsClass(v.IDs) + histTag(v), What: fmt.Sprintf("ids %v shape %d%s: %s", v.IDs, v.Shape, histWords(v), irExtra[i]), Case: caseOf})
+		}
+		keptRows = append(keptRows, irRows[i])
+		keptVecs = append(keptVecs, v)
 	}
-	rep.Sample(map[string]interface{}{"kind": "ir", "ids": vectors[len(vectors)/2].IDs, "refs": vectors[len(vectors)/2].Refs, "want": vectors[len(vectors)/2].Want, "got": irRows[len(vectors)/2].Got})
-	rep.Extra["ir_vectors"] = len(vectors)
+	irRows, vectors = keptRows, keptVecs
+	if len(irRows) == 0 {
+		mbt.Infra("no definition list could be evaluated")
+	}
+	rep.Sample(map[string]interface{}{"kind": "ir", "ids": vectors[len(vectors)/3].IDs, "refs": vectors[len(vectors)/3].Refs, "want": vectors[len(vectors)/3].Want, "got": irRows[len(vectors)/3].Got})
+	rep.Extra["ir_vectors"] = nPlain
+	rep.Extra["ir_history_vectors"] = len(hist)
 	rep.Extra["ir_llvm_checked"] = llvmChecked
 
+	lap("ir_llvm")
 	// (G) parser side: TLC-generated graph patterns
 	rows := make([]*parseRow, 0, len(patterns)+200)
 	for _, p := range patterns {
-		rows = append(rows, &parseRow{Src: "graph", Pat: p.Pat, Want: p.Want, text: render(p.Text), name: patName(p.Pat)})
+		rows = append(rows, &parseRow{Src: "graph", Pat: p.Pat, Want: p.Want, text: render(p.Text, spOf(p.Pat)), name: patName(p.Pat)})
 	}
 	// the specialised node kinds
 	diRows, diInfo := specialisedRows(tier, rng)
@@ -380,23 +451,54 @@ func Run(tier, replay string) {
 	}
 	// llvm-as validates every text; the llvm-as|llvm-dis comparison of input and printed
 	// output (4 more process spawns) is done for a seeded share of them
-	canonEvery := 2
+	canonEvery := 3
 	if tier != "thorough" {
 		canonEvery = 6
 	}
 	judged := processParseRows(rep, rows, canonEvery, rng.Intn(canonEvery))
-	rep.Sample(map[string]interface{}{"kind": "graph", "pat": patterns[len(patterns)/3].Pat, "text": render(patterns[len(patterns)/3].Text)})
+	rep.Sample(map[string]interface{}{"kind": "graph", "pat": patterns[len(patterns)/3].Pat, "text": render(patterns[len(patterns)/3].Text, spOf(patterns[len(patterns)/3].Pat))})
 
 	negatives(rep)
+	lap("parse_rows")
 
 	// (T) everything recorded is judged by MetadataTrace
 	judge(rep, irRows, vectors, judged)
+	lap("tlc_trace")
+	rep.Extra["phase_wall_s"] = phases
 	rep.Exhaustive = false
 	rep.Finish()
 }
 
+func spOf(p map[string]interface{}) int {
+	if f, ok := p["sp"].(float64); ok {
+		return int(f)
+	}
+	return 0
+}
+
+func insOf(v irVector) int {
+	if v.Ins == nil {
+		return -1
+	}
+	return *v.Ins
+}
+
+func histTag(v irVector) string {
+	if v.Ins == nil {
+		return ""
+	}
+	return "|print-insert-print"
+}
+
+func histWords(v irVector) string {
+	if v.Ins == nil {
+		return ""
+	}
+	return fmt.Sprintf(", printed, unnumbered definition inserted after position %d, printed again", *v.Ins)
+}
+
 func patName(p map[string]interface{}) string {
-	return fmt.Sprintf("graph(n=%v shape=%v sparse=%v perm=%v distinct-mode=%v inline-mode=%v named-mode=%v)", p["n"], p["shape"], p["sparse"], p["perm"], p["dm"], p["inl"], p["nv"])
+	return fmt.Sprintf("graph(n=%v shape=%v sparse=%v perm=%v distinct-mode=%v inline-mode=%v named-mode=%v spelling=%v)", p["n"], p["shape"], p["sparse"], p["perm"], p["dm"], p["inl"], p["nv"], p["sp"])
 }
 
 func idsClass(ids []int64) string {
@@ -427,9 +529,11 @@ func idsClass(ids []int64) string {
 
 func extraClass(s string) string {
 	switch {
-	case strings.HasPrefix(s, "llvm-as rejects"):
+	case strings.Contains(s, "llvm-as rejects"):
 		return "llvm-rejects-printed"
-	case strings.HasPrefix(s, "printing a second time"):
+	case strings.Contains(s, "still unnumbered"):
+		return "left-unnumbered"
+	case strings.Contains(s, "printing a second time"):
 		return "not-idempotent"
 	default:
 		return "node-id-differs-from-printed"
@@ -442,65 +546,86 @@ func processParseRows(rep *mbt.Report, rows []*parseRow, canonEvery, off int) []
 	type res struct {
 		discard string
 		fail    *mbt.Failure
+		canonIn string
+		doCanon bool
 	}
 	out := make([]res, len(rows))
-	var mu sync.Mutex
-	canonChecked := 0
+	caseOf := func(r *parseRow) map[string]interface{} {
+		return map[string]interface{}{"kind": "parse", "src": r.Src, "name": r.name, "text": r.text, "want": r.Want, "pat": r.Pat}
+	}
+	// 1. LLVM decides which texts are valid (and, for a share, what they mean)
 	llvmoracle.Parallel(len(rows), func(i int) {
 		r := rows[i]
-		caseOf := map[string]interface{}{"kind": "parse", "src": r.Src, "name": r.name, "text": r.text, "want": r.Want, "pat": r.Pat}
-		canonIn, ok, diag := "", false, ""
-		doCanon := (i+off)%canonEvery == 0
-		if doCanon {
-			canonIn, ok, diag = llvmoracle.Canon(r.text)
+		ok, diag := false, ""
+		out[i].doCanon = (i+off)%canonEvery == 0
+		if out[i].doCanon {
+			out[i].canonIn, ok, diag = llvmoracle.Canon(r.text)
 		} else {
 			ok, diag = llvmoracle.Accepts(r.text)
 		}
 		if !ok {
 			out[i].discard = diag
-			return
-		}
-		var m *ir.Module
-		var perr error
-		if msg, p := mbt.Guard(func() { m, perr = asm.ParseString("pattern.ll", r.text) }); p {
-			out[i].fail = &mbt.Failure{Signature: "C17|parse|panic|" + r.Src + r.kindTag(), What: fmt.Sprintf("%s: the parser panics on a text llvm-as accepts: %s", r.name, mbt.Truncate(msg, 300)), Case: caseOf}
-			return
-		}
-		if perr != nil {
-			out[i].fail = &mbt.Failure{Signature: "C17|parse|error|" + r.Src + r.kindTag(), What: fmt.Sprintf("%s: the parser rejects a text llvm-as accepts: %s", r.name, mbt.Truncate(perr.Error(), 300)), Case: caseOf}
-			return
-		}
-		r.Obs = observe(m, r.Src == "graph")
-		if w, ok := r.Want.(map[string]interface{}); ok && r.freeSites {
-			w["sites"] = r.Obs.Sites
-		}
-		var text string
-		if msg, p := mbt.Guard(func() { text = m.String() }); p {
-			out[i].fail = &mbt.Failure{Signature: "C17|print|panic|" + r.Src + r.kindTag(), What: fmt.Sprintf("%s: printing the parsed module panics: %s", r.name, mbt.Truncate(msg, 300)), Case: caseOf}
-			return
-		}
-		r.Printed.IDs, r.Printed.Tokens, _ = defTokens(text)
-		// parse what was printed: every reference must come back as the node of definition !N
-		var m2 *ir.Module
-		var perr2 error
-		if msg, p := mbt.Guard(func() { m2, perr2 = asm.ParseString("printed.ll", text) }); p || perr2 != nil {
-			if perr2 != nil {
-				msg = perr2.Error()
+			if out[i].discard == "" {
+				out[i].discard = "rejected"
 			}
-			out[i].fail = &mbt.Failure{Signature: "C17|print|reparse-fails|" + r.Src + r.kindTag(), What: fmt.Sprintf("%s: the printed module cannot be parsed again: %s", r.name, mbt.Truncate(msg, 300)), Case: caseOf}
+		}
+	})
+	// 2. the real parser and printer, in child processes
+	var jobs []job
+	var jobRow []int
+	for i, r := range rows {
+		if out[i].discard == "" {
+			jobs = append(jobs, job{Kind: "text", Text: r.text, KeepLits: r.Src == "graph", Ins: -1})
+			jobRow = append(jobRow, i)
+		}
+	}
+	results := runJobs(jobs)
+	printedText := make([]string, len(rows))
+	for k, jr := range results {
+		i := jobRow[k]
+		r := rows[i]
+		tag := r.Src + r.kindTag()
+		switch {
+		case jr.Crashed != "" && jr.Phase == "skipped":
+			out[i].discard = "not evaluated"
+		case jr.Crashed != "":
+			out[i].fail = &mbt.Failure{Signature: "C17|" + jr.Phase + "|crash|" + tag, What: fmt.Sprintf("%s: the process dies in phase %s on a text llvm-as accepts: %s", r.name, jr.Phase, jr.Crashed), Case: caseOf(r)}
+		case jr.ParsePanic != "":
+			out[i].fail = &mbt.Failure{Signature: "C17|parse|panic|" + tag, What: fmt.Sprintf("%s: the parser panics on a text llvm-as accepts: %s", r.name, mbt.Truncate(jr.ParsePanic, 300)), Case: caseOf(r)}
+		case jr.ParseErr != "":
+			out[i].fail = &mbt.Failure{Signature: "C17|parse|error|" + tag, What: fmt.Sprintf("%s: the parser rejects a text llvm-as accepts: %s", r.name, mbt.Truncate(jr.ParseErr, 300)), Case: caseOf(r)}
+		case jr.PrintPanic != "":
+			out[i].fail = &mbt.Failure{Signature: "C17|print|panic|" + tag, What: fmt.Sprintf("%s: printing the parsed module panics: %s", r.name, mbt.Truncate(jr.PrintPanic, 300)), Case: caseOf(r)}
+		case jr.ReparseError != "":
+			out[i].fail = &mbt.Failure{Signature: "C17|print|reparse-fails|" + tag, What: fmt.Sprintf("%s: the printed module cannot be parsed again: %s", r.name, mbt.Truncate(jr.ReparseError, 300)), Case: caseOf(r)}
+		default:
+			r.Obs, r.Obs2 = jr.Obs, jr.Obs2
+			if w, ok := r.Want.(map[string]interface{}); ok && r.freeSites {
+				w["sites"] = r.Obs.Sites
+			}
+			r.Printed.IDs, r.Printed.Tokens, _ = defTokens(jr.Text)
+			if r.Printed.IDs == nil {
+				r.Printed.IDs, r.Printed.Tokens = []int64{}, [][]int64{}
+			}
+			printedText[i] = jr.Text
+		}
+	}
+	// 3. LLVM reads the printed module as it read the input
+	var mu sync.Mutex
+	canonChecked := 0
+	llvmoracle.Parallel(len(rows), func(i int) {
+		r := rows[i]
+		if !out[i].doCanon || out[i].discard != "" || out[i].fail != nil {
 			return
 		}
-		r.Obs2 = observe(m2, r.Src == "graph")
-		if doCanon {
-			canonOut, ok2, diag2 := llvmoracle.Canon(text)
-			mu.Lock()
-			canonChecked++
-			mu.Unlock()
-			if !ok2 {
-				out[i].fail = &mbt.Failure{Signature: "C17|print|llvm-rejects-printed|" + r.Src + r.kindTag(), What: fmt.Sprintf("%s: llvm-as rejects the printed module: %s", r.name, mbt.Truncate(diag2, 300)), Case: caseOf}
-			} else if canonIn != canonOut {
-				out[i].fail = &mbt.Failure{Signature: "C17|print|llvm-reads-differently|" + r.Src + r.kindTag(), What: fmt.Sprintf("%s: llvm-as|llvm-dis of input and of printed output differ: %s", r.name, firstDiff(canonIn, canonOut)), Case: caseOf}
-			}
+		canonOut, ok2, diag2 := llvmoracle.Canon(printedText[i])
+		mu.Lock()
+		canonChecked++
+		mu.Unlock()
+		if !ok2 {
+			out[i].fail = &mbt.Failure{Signature: "C17|print|llvm-rejects-printed|" + r.Src + r.kindTag(), What: fmt.Sprintf("%s: llvm-as rejects the printed module: %s", r.name, mbt.Truncate(diag2, 300)), Case: caseOf(r)}
+		} else if out[i].canonIn != canonOut {
+			out[i].fail = &mbt.Failure{Signature: "C17|print|llvm-reads-differently|" + r.Src + r.kindTag(), What: fmt.Sprintf("%s: llvm-as|llvm-dis of input and of printed output differ: %s", r.name, firstDiff(out[i].canonIn, canonOut)), Case: caseOf(r)}
 		}
 	})
 	var judged []*parseRow
@@ -516,8 +641,8 @@ func processParseRows(rep *mbt.Report, rows []*parseRow, canonEvery, off int) []
 		}
 		if out[i].fail != nil {
 			rep.Fail(*out[i].fail)
-			if strings.HasPrefix(out[i].fail.Signature, "C17|parse|") || strings.HasPrefix(out[i].fail.Signature, "C17|print|panic") || strings.HasPrefix(out[i].fail.Signature, "C17|print|reparse") {
-				continue
+			if !strings.HasPrefix(out[i].fail.Signature, "C17|print|llvm-") {
+				continue // nothing (complete) was recorded
 			}
 		}
 		judged = append(judged, r)
@@ -543,19 +668,27 @@ func negatives(rep *mbt.Report) {
 		{"undefined-ref-in-attachment", "@g = global i32 0, !foo !9\n!0 = !{}\n"},
 		{"undefined-ref-in-specialised", "!0 = !DIFile(filename: \"a\", directory: \"b\")\n!1 = !DIBasicType(name: \"t\")\n!2 = !DIDerivedType(tag: DW_TAG_pointer_type, baseType: !8)\n"},
 	}
+	var jobs []job
+	var names []string
 	for _, c := range cases {
 		if ok, _ := llvmoracle.Accepts(c.text); ok {
 			rep.Note("negative case %s is accepted by llvm-as: discarded", c.name)
 			continue
 		}
-		rep.Count("negative:"+c.name, true)
-		var err error
-		msg, p := mbt.Guard(func() { _, err = asm.ParseString("neg.ll", c.text) })
-		caseOf := map[string]interface{}{"kind": "negative", "name": c.name, "text": c.text}
-		if p {
-			rep.Fail(mbt.Failure{Signature: "C17|parse|panic-on-invalid|" + c.name, What: "the parser panics instead of reporting an error: " + mbt.Truncate(msg, 300), Case: caseOf})
-		} else if err == nil {
-			rep.Fail(mbt.Failure{Signature: "C17|parse|accepts-invalid|" + c.name, What: "the parser accepts a text whose metadata IDs are not unique / not defined (llvm-as rejects it)", Case: caseOf})
+		jobs = append(jobs, job{Kind: "text", Text: c.text, Ins: -1})
+		names = append(names, c.name)
+	}
+	for k, jr := range runJobs(jobs) {
+		name := names[k]
+		rep.Count("negative:"+name, true)
+		caseOf := map[string]interface{}{"kind": "negative", "name": name, "text": jobs[k].Text}
+		switch {
+		case jr.Crashed != "":
+			rep.Fail(mbt.Failure{Signature: "C17|parse|crash-on-invalid|" + name, What: "the process dies instead of reporting an error: " + jr.Crashed, Case: caseOf})
+		case jr.ParsePanic != "":
+			rep.Fail(mbt.Failure{Signature: "C17|parse|panic-on-invalid|" + name, What: "the parser panics instead of reporting an error: " + mbt.Truncate(jr.ParsePanic, 300), Case: caseOf})
+		case jr.ParseErr == "":
+			rep.Fail(mbt.Failure{Signature: "C17|parse|accepts-invalid|" + name, What: "the parser accepts a text whose metadata IDs are not unique / not defined (llvm-as rejects it)", Case: caseOf})
 		}
 	}
 }
@@ -688,12 +821,22 @@ func runReplay(rep *mbt.Report, path string) {
 			for len(v.Refs) < len(v.IDs) {
 				v.Refs = append(v.Refs, []int{})
 			}
-			row, _, extra := runIR(v)
-			rep.Count(fmt.Sprintf("ir:%v", v.IDs), true)
-			if extra != "" {
-				rep.Fail(mbt.Failure{Signature: "C17|ir|" + extraClass(extra) + "|" + idsClass(v.IDs), What: extra, Case: c})
+			if x, ok := c["ins"].(float64); ok {
+				n := int(x)
+				v.Ins = &n
+				v.Refs2 = make([][]int, len(v.IDs)+1) // operands of the second print are not needed to re-run
 			}
-			irRows = append(irRows, row)
+			rows, _, extras, crashed := evalIR([]irVector{v})
+			rep.Count(fmt.Sprintf("ir:%v", v.IDs), true)
+			if crashed[0] != nil {
+				rep.Fail(mbt.Failure{Signature: "C17|print|crash|ir|" + idsClass(v.IDs) + histTag(v), What: "the process dies while printing: " + crashed[0].Crashed, Case: c})
+				continue
+			}
+			if extras[0] != "" {
+				rep.Fail(mbt.Failure{Signature: "C17|ir|" + extraClass(extras[0]) + "|" + idsClass(v.IDs) + histTag(v), What: extras[0], Case: c})
+			}
+			rows[0].Ins, rows[0].Refs2, rows[0].Got2 = nil, nil, nil // judged as a plain row on replay
+			irRows = append(irRows, rows[0])
 		case "negative":
 			negatives(rep)
 		case "parse":
